@@ -2,6 +2,10 @@ package main
 
 import (
 	"fmt"
+	"go/ast"
+	"go/parser"
+	"go/token"
+	"strconv"
 	"os"
 	"os/exec"
 	"path/filepath"
@@ -12,18 +16,76 @@ import (
 
 // ---- C15: printed SDL re-parses to the same schema ---------------------------------------------------
 
-// toolRewrite is what `ggqlgen -w` writes back: the concatenation of t.SDL(true) over root.Types()
-func toolRewrite(root *ggql.Root) string {
-	var b strings.Builder
-	for _, t := range root.Types() {
-		if t.Core() {
-			continue
-		}
-		b.WriteString("\n")
-		b.WriteString(t.SDL(true))
+// toolRewrite runs the real `ggqlgen -w` (built from the current tree) on a file holding sdl and returns what
+// the tool wrote back.  There is no hand-written stand-in for the tool: what is observed is its own output.
+func toolRewrite(toolBin, dir, sdl string) (string, error) {
+	if toolBin == "" {
+		return "", fmt.Errorf("ggqlgen did not build")
 	}
-	return b.String()
+	f := filepath.Join(dir, "s.graphql")
+	if err := os.WriteFile(f, []byte(sdl), 0o600); err != nil {
+		return "", err
+	}
+	if out, err := exec.Command(toolBin, "-w", f).CombinedOutput(); err != nil {
+		return "", fmt.Errorf("ggqlgen -w: %v: %s", err, strings.TrimSpace(string(out)))
+	}
+	got, err := os.ReadFile(f)
+	return string(got), err
 }
+
+// toolEmbed runs the real `ggqlgen -e` on a file holding sdl and returns the value of the string constant in
+// the Go file the tool wrote, as a Go compiler evaluates it (raw and interpreted literals, `+`).
+func toolEmbed(toolBin, dir, sdl string) (string, error) {
+	if toolBin == "" {
+		return "", fmt.Errorf("ggqlgen did not build")
+	}
+	f := filepath.Join(dir, "e.graphql")
+	dest := filepath.Join(dir, "e.go")
+	if err := os.WriteFile(f, []byte(sdl), 0o600); err != nil {
+		return "", err
+	}
+	if out, err := exec.Command(toolBin, "-e", f+":"+dest+":Schema", f).CombinedOutput(); err != nil {
+		return "", fmt.Errorf("ggqlgen -e: %v: %s", err, strings.TrimSpace(string(out)))
+	}
+	file, err := parser.ParseFile(token.NewFileSet(), dest, nil, parser.AllErrors)
+	if err != nil {
+		return "", fmt.Errorf("embed file is not Go: %v", err)
+	}
+	var eval func(e ast.Expr) (string, error)
+	eval = func(e ast.Expr) (string, error) {
+		switch te := e.(type) {
+		case *ast.BasicLit:
+			if te.Kind == token.STRING {
+				return strconv.Unquote(te.Value)
+			}
+		case *ast.ParenExpr:
+			return eval(te.X)
+		case *ast.BinaryExpr:
+			if te.Op == token.ADD {
+				x, err := eval(te.X)
+				if err != nil {
+					return "", err
+				}
+				y, err := eval(te.Y)
+				return x + y, err
+			}
+		}
+		return "", fmt.Errorf("embed constant is not a string expression")
+	}
+	for _, d := range file.Decls {
+		if gd, ok := d.(*ast.GenDecl); ok && gd.Tok == token.CONST {
+			for _, sp := range gd.Specs {
+				if vs, ok := sp.(*ast.ValueSpec); ok && len(vs.Names) == 1 && vs.Names[0].Name == "Schema" && len(vs.Values) == 1 {
+					return eval(vs.Values[0])
+				}
+			}
+		}
+	}
+	return "", fmt.Errorf("embed file has no Schema constant")
+}
+
+// descriptions a Go raw string literal can not hold as they are
+var c15Descs = append(append([]string{}, sDescsHard...), "a `tick` inside", "`", "carriage\rreturn", "`\r`")
 
 type c15Res struct {
 	accepted   bool // the printed text is accepted by a fresh root
@@ -140,7 +202,7 @@ func (s *sSet) authorSDL() string {
 	return t
 }
 
-func c15Case(o *Out, r *Rng, toolBin string) {
+func c15Case(o *Out, r *Rng, toolBin, toolDir string) {
 	hard := r.Chance(50)
 	set := genSet(r, sdlOpts{hardDescs: false, defaults: true, dirUses: r.Chance(60), schemaBlk: r.Chance(20)})
 	// hard descriptions are injected through the Go API after loading (the property quantifies over
@@ -170,7 +232,7 @@ func c15Case(o *Out, r *Rng, toolBin string) {
 				base = &tt.Base
 			}
 			if base != nil && r.Chance(40) {
-				base.Desc = Pick(r, sDescsHard)
+				base.Desc = Pick(r, c15Descs)
 				if strings.Contains(base.Desc, `\`) {
 					bs = true
 				}
@@ -185,7 +247,28 @@ func c15Case(o *Out, r *Rng, toolBin string) {
 	res := safeResolve(root, introQuery, "", nil)
 	baseIntro := canon(map[string]interface{}{"data": res["data"]})
 	whole := c15RoundTrip(root.SDL(false, true), baseIntro, func(r2 *ggql.Root) string { return r2.SDL(false, true) })
-	tool := c15RoundTrip(toolRewrite(root), baseIntro, toolRewrite)
+	// the tool reads the printed form (the hard descriptions exist only in the root, not in the generated text)
+	var tool c15Res
+	if rewritten, err := toolRewrite(toolBin, toolDir, root.SDL(false, true)); err != nil {
+		tool = c15Res{err: err.Error()}
+	} else {
+		tool = c15RoundTrip(rewritten, baseIntro, func(*ggql.Root) string { return rewritten })
+		o.Count("real-ggqlgen-runs")
+	}
+	printed := root.SDL(false, true)
+	tick, cr := strings.Contains(printed, "`"), strings.Contains(printed, "\r")
+	var embed c15Res
+	if embedded, err := toolEmbed(toolBin, toolDir, printed); err != nil {
+		embed = c15Res{err: err.Error()}
+	} else {
+		embed = c15RoundTrip(embedded, baseIntro, func(*ggql.Root) string { return embedded })
+	}
+	if tick {
+		o.Count("printed-has-backtick")
+	}
+	if cr {
+		o.Count("printed-has-carriage-return")
+	}
 	class := "plain"
 	if bs {
 		class = "backslash"
@@ -199,26 +282,11 @@ func c15Case(o *Out, r *Rng, toolBin string) {
 		o.Count("has-directive-definition")
 	}
 	o.Emit(Case{
-		Term: N("c15", B(bs), B(tq), B(set.hasDirective()), B(set.usesDirective())),
-		Obs:  N("obs", B(whole.accepted), B(whole.sameSchema), B(whole.fixedPoint), B(tool.accepted), B(tool.sameSchema)),
-		Meta: map[string]interface{}{"printed": root.SDL(false, true), "whole_err": whole.err, "tool_err": tool.err},
+		Term: N("c15", B(bs), B(tq), B(set.hasDirective()), B(set.usesDirective()), B(tick), B(cr)),
+		Obs:  N("obs", B(whole.accepted), B(whole.sameSchema), B(whole.fixedPoint), B(tool.accepted), B(tool.sameSchema), B(embed.accepted), B(embed.sameSchema)),
+		Meta: map[string]interface{}{"printed": root.SDL(false, true), "whole_err": whole.err, "tool_err": tool.err, "embed_err": embed.err},
 		Key:  root.SDL(false, true), Nontrivial: true,
 	})
-	// the real tool on a temp file, for a sample of cases
-	if toolBin != "" && r.Chance(4) {
-		dir, _ := os.MkdirTemp("", "c15tool")
-		defer os.RemoveAll(dir)
-		f := filepath.Join(dir, "s.graphql")
-		_ = os.WriteFile(f, []byte(root.SDL(false, true)), 0o600)
-		out, err := exec.Command(toolBin, "-w", f).CombinedOutput()
-		got, _ := os.ReadFile(f)
-		same := err == nil && string(got) == toolRewrite(root)
-		o.Count("real-ggqlgen-runs")
-		if !same && whole.accepted {
-			o.Count("real-ggqlgen-differs")
-			_ = out
-		}
-	}
 }
 
 func init() {
@@ -238,12 +306,14 @@ func init() {
 			toolBin = bin
 			defer os.Remove(bin)
 		}
+		toolDir, _ := os.MkdirTemp("", "c15tool")
+		defer os.RemoveAll(toolDir)
 		n := 700
 		if tier == "thorough" {
 			n = 30000
 		}
 		for i := 0; i < n; i++ {
-			c15Case(o, rng.Fork(), toolBin)
+			c15Case(o, rng.Fork(), toolBin, toolDir)
 		}
 	}
 }
